@@ -23,11 +23,12 @@ Lemma step_xmp_cases : forall d o,
   \/ d_xmp (fst (step d o)) = None.
 Proof.
   intros d o. unfold step. destruct (negb (readable d)); [now left|].
-  destruct o as [ks|ks|kvs|ks|v| |v| |new| |id data|ids];
+  destruct o as [ks|ks|kvs|ks|v| |v| |new| |id desc data|ids];
     repeat first
       [ match goal with |- context [match d_xmp d with None => _ | Some _ => _ end] => destruct (d_xmp d) eqn:?X end
       | match goal with |- context [match d_kw d with None => _ | Some _ => _ end] => destruct (d_kw d) eqn:?K end
       | match goal with |- context [match ?x with [] => _ | _ :: _ => _ end] => destruct x end
+      | match goal with |- context [remove_seq ?a ?b] => destruct (remove_seq a b) end
       | match goal with |- context [if ?c then _ else _] => destruct c eqn:?C end ];
     simpl; auto; try (left; assumption); try congruence.
 Qed.
@@ -78,7 +79,7 @@ Lemma history_from_xmp : forall kw x h, let d := init_doc 17 true kw x in
 Proof. intros kw x h d Wk W F X. eapply history_refines; eauto. now apply rel_init. Qed.
 
 (* ------------------------------------------------------------- attachments *)
-Definition att_op (o : op) : bool := match o with AAdd _ _ | ARemove _ => true | _ => false end.
+Definition att_op (o : op) : bool := match o with AAdd _ _ _ | ARemove _ => true | _ => false end.
 Definition kw_op (o : op) : bool := match o with KAdd _ | KRemove _ => true | _ => false end.
 Definition pr_op (o : op) : bool := match o with PAdd _ | PRemove _ => true | _ => false end.
 Definition pl_op (o : op) : bool := match o with LSet _ | LReset => true | _ => false end.
@@ -94,10 +95,11 @@ Lemma astep_independent : forall s o,
   (att_op o = false -> s_att (astep s o) = s_att s).
 Proof.
   intros [ver kw pr pl pm vp att] o.
-  destruct o as [ks|ks|kvs|ks|v| |v| |new| |id data|ids]; simpl;
+  destruct o as [ks|ks|kvs|ks|v| |v| |new| |id desc data|ids]; simpl;
     repeat split; intros H; try discriminate; try reflexivity;
     repeat match goal with
            | |- context [match ?l with [] => _ | _ :: _ => _ end] => destruct l
+           | |- context [remove_seq ?a ?b] => destruct (remove_seq a b)
            | |- context [if ?c then _ else _] => destruct c
            end; reflexivity.
 Qed.
@@ -117,24 +119,64 @@ Proof.
   destruct o; simpl in *; try reflexivity; discriminate.
 Qed.
 
-Lemma extract_rel : forall d s id, Rel d s -> extract d id = m_get id (s_att s).
+(* the lookup: the exact key wins, whatever file names and descriptions the other entries have *)
+Lemma att_find_key_first : forall k v (m : atts), m_get k m = Some v -> att_find k m = Some (k, v).
+Proof. intros k v m H. unfold att_find. now rewrite H. Qed.
+
+Lemma att_find_after_set : forall k v (m : atts), att_find k (m_set k v m) = Some (k, v).
+Proof. intros k v m. apply att_find_key_first. apply m_get_set_same. Qed.
+
+(* the content search is used only when no key matches, and then returns an entry whose
+   file name or description is the name asked for *)
+Lemma att_search_sound : forall p (m : atts) k v, att_search p m = Some (k, v) ->
+  In (k, v) m /\ (a_fname v = p \/ a_desc v = p).
+Proof.
+  intros p m. induction m as [|[k0 v0] r IH]; simpl; intros k v H; [discriminate|].
+  destruct (seqb p (a_fname v0) || seqb p (a_desc v0)) eqn:E.
+  - inversion H; subst. split; [now left|]. apply orb_true_iff in E as [E|E]; apply seqb_eq in E; auto.
+  - destruct (IH _ _ H) as [I1 I2]. split; [now right|assumption].
+Qed.
+
+Lemma att_find_fallback : forall p (m : atts) k v, att_find p m = Some (k, v) -> k <> p ->
+  m_get p m = None /\ (a_fname v = p \/ a_desc v = p).
+Proof.
+  intros p m k v H N. unfold att_find in H. destruct (m_get p m) eqn:G.
+  - inversion H; subst. congruence.
+  - split; [reflexivity|]. now apply (att_search_sound _ _ _ _ H).
+Qed.
+
+Lemma extract_rel : forall d s id, Rel d s ->
+  extract d id = match att_find id (s_att s) with Some (_, v) => Some (a_data v) | None => None end.
 Proof. intros d s id R. unfold extract. now rewrite (readable_rel _ _ R), (r_att _ _ R). Qed.
 
-Lemma extract_returns_added : forall d s id data h,
+Lemma extract_returns_added : forall d s id desc data h,
   Rel d s -> m_mem id (s_att s) = false ->
   Forall (fun o => wf_op o = true) h -> forallb (fun o => negb (att_op o)) h = true ->
-  xmp_ok d (AAdd id data :: h) ->
-  extract (run d (AAdd id data :: h)) id = Some data.
+  xmp_ok d (AAdd id desc data :: h) ->
+  extract (run d (AAdd id desc data :: h)) id = Some data.
 Proof.
-  intros d s id data h R Fr W NA X.
-  assert (R' : Rel (run d (AAdd id data :: h)) (arun s (AAdd id data :: h))).
+  intros d s id desc data h R Fr W NA X.
+  assert (R' : Rel (run d (AAdd id desc data :: h)) (arun s (AAdd id desc data :: h))).
   { apply run_rel; [assumption|constructor; [reflexivity|assumption]| |].
     - simpl. rewrite Fr. simpl. now apply fresh_adds_no_att.
     - assumption. }
-  rewrite (extract_rel _ _ _ R'). simpl. unfold arun in *. fold (arun (astep s (AAdd id data)) h).
+  rewrite (extract_rel _ _ _ R'). simpl. unfold arun in *. fold (arun (astep s (AAdd id desc data)) h).
   rewrite arun_att_unchanged by assumption.
-  destruct s; simpl. apply m_get_set_same.
+  destruct s; simpl. now rewrite att_find_after_set.
 Qed.
+
+(* after add(k, v), extract k = v regardless of every other entry's file name and description *)
+Lemma extract_after_add : forall d s k desc v,
+  Rel d s -> m_mem k (s_att s) = false -> extract (fst (step d (AAdd k desc v))) k = Some v.
+Proof.
+  intros d s k desc v R Fr.
+  assert (X : xmp_ok d [AAdd k desc v]) by (right; reflexivity).
+  apply (extract_returns_added d s k desc v [] R Fr (Forall_nil _) eq_refl X).
+Qed.
+
+(* ... and of whatever is added later under other names *)
+Lemma extract_key_wins : forall d s k v, Rel d s -> m_get k (s_att s) = Some v -> extract d k = Some (a_data v).
+Proof. intros d s k v R G. rewrite (extract_rel _ _ _ R). now rewrite (att_find_key_first _ _ _ G). Qed.
 
 (* ------------------------------------------------------------- idempotence, removal *)
 Lemma set_ins_idem : forall k l, ssorted l -> In k l -> set_ins k l = l.
@@ -224,3 +266,11 @@ Lemma no_info_remove_refused :
   /\ last_ok d [KRemove [[120; 49]]] = false
   /\ observe (run d [KRemove [[120; 49]]]) = Some (Store 17 [[120; 49]] [] None None None []).
 Proof. vm_compute. repeat split; reflexivity. Qed.
+
+(* the attachment whose DESCRIPTION is "b.txt" sorts before the attachment whose KEY is "b.txt":
+   extracting "b.txt" returns the bytes stored under the key *)
+Lemma extract_key_before_description :
+  let h := [AAdd [97; 46; 116; 120; 116] [98; 46; 116; 120; 116] [1; 1]; AAdd [98; 46; 116; 120; 116] [] [2; 2]] in
+  extract (run (empty_doc 17) h) [98; 46; 116; 120; 116] = Some [2; 2]
+  /\ extract (run (empty_doc 17) (h ++ [ARemove [[98; 46; 116; 120; 116]]])) [98; 46; 116; 120; 116] = Some [1; 1].
+Proof. vm_compute. split; reflexivity. Qed.
